@@ -27,6 +27,14 @@ CHECK = {
             "budget_s": {"quick": 120, "thorough": 600},
         },
         {
+            # the real runInProcess path (as used for the reference peers): scripted server functions incl. ones that
+            # block on their stderr; "every started server is stopped"
+            "name": "c05-inproc", "pkg": CC, "harness": ["connectconformance/c11_inproc_test.go", "connectconformance/osproc_test.go", "connectconformance/c10_test.go", "connectconformance/c05_test.go", "connectconformance/peersim_test.go", "connectconformance/c11_test.go", "connectconformance/fakeproc_test.go", "connectconformance/gateutil_test.go"],
+            "test": "^TestVerifC11InProcess$",
+            "shards": {"quick": 8, "thorough": 16},
+            "budget_s": {"quick": 60, "thorough": 300},
+        },
+        {
             "name": "c05-peersim", "pkg": CC, "rewrite": [CC], "harness": H,
             "test": "^TestVerifC05$", "gomaxprocs": 1,
             "shards": {"quick": 16, "thorough": 16},
